@@ -99,4 +99,24 @@ CLAIMED = {
              "disables the stage, and that the Tantivy path keeps its three lex fallbacks with the same filter.",
         note="Not decided: recall itself (values). Known finding (open): the sketch set is a hard filter on the default path (design decision of the search path).",
         design_ref="DESIGN.md §4 C09"),
+    "C26": dict(
+        technique="unit check by explicit data flow: WAL-sequence sources (results of append_wal_entry) must not reach frame-id sinks discovered from parameter/field names",
+        text="Partial, strong: in every function that appends to the WAL no value derived from the append's result (a WAL sequence number) reaches an argument whose callee "
+             "parameter is named *frame_id*, an id field of Frame/MemoryCard/TimeIndexEntry/SearchHit, or the enrichment queue; positively, put_internal's frame-id sinks derive from next_frame_id() "
+             "captured before the append.",
+        note="Not decided: that the card's value occurs in the frame text. The rule found a genuine defect at four sinks (parent_seq as FrameId), repaired by fix commit 21b3024.",
+        design_ref="DESIGN.md §4 C26"),
+    "C40": dict(
+        technique="explicit data flow of IngestionDelta.inserted_embeddings in every apply_records caller; string-literal protocol agreement between WAL and its growth arm; batch protocol dominance",
+        text="Partial: every caller of apply_records hands the applied embeddings to the vector-index builder after the apply; the set of no-space rejection strings "
+             "EmbeddedWal::append_entry can produce equals the set Memvid::append_wal_entry's growth arm matches; begin_batch/end_batch install, flush and reset in order.",
+        note="Not decided: equality of results between bulk and plain ingestion (values). The rule found a genuine defect (skip-index commit dropped embeddings), repaired by fix commit e30c60f.",
+        design_ref="DESIGN.md §4 C40"),
+    "C24": dict(
+        technique="guard-edge dominance of every WAL append by the capacity comparison + coupling check (fields read by the guard vs fields advanced on the acknowledged path, through callee bodies)",
+        text="Partial: every WAL append in put_internal is dominated by projected <= capacity_limit() with the failing edge returning CapacityExceeded, projected includes the "
+             "incoming payload, capacity_limit is ticket-or-tier, cached_payload_end is monotone; and the usage counter the guard reads must be advanced by the put path itself.",
+        note="Not decided: the numeric bound over histories. Known finding (open): the guard's counter is only advanced at commit, so un-committed puts are not counted. "
+             "Untriaged candidate (not armed): enable_vec()/manifest.dimension are stored before the capacity check.",
+        design_ref="DESIGN.md §4 C24"),
 }
